@@ -22,12 +22,18 @@ THEOREMS = [
     "c04_session_records_answer",
     "c04_default_supported",
     "c04_library_answer_supported",
+    "c04_handshake_sound",
+    "c04_handshake_total",
+    "c04_handshake_common",
+    "c04_library_handshake",
 ]
 RULE = (
-    "server: requested protocolVersion in {each supported version, every calendar date 1925-01-01..2124-12-31 (thorough; quick: "
-    "all dates of 2015..2034 + every 7th day of the rest), mutations of the supported versions, malformed strings, non-strings of "
+    "server: requested protocolVersion in {each supported version, every calendar date 1925-01-01..2124-12-31, seeded dddd-dd-dd strings "
+    "(3 k quick / 500 k thorough), mutations of the supported versions, malformed strings, non-strings of "
     "every JSON type, absent in 4 shapes} through the real handle_message, compared with serverAnswer on the regenerated constants; "
-    "non-trivial = distinct requested value"
+    "handshake: the real send_initialize against the real handler over an in-memory pipe (messages cross as JSON text) for every client "
+    "list of length<=3 over 3 real + 3 invented versions x 9 preferred, compared with the composed model; "
+    "non-trivial = distinct requested value / distinct (client list, preferred)"
 )
 TRUSTED = ["Gen/Versions.lean regenerated from versioning.py (SUPPORTED_VERSIONS) and protocol_handler.py (default literal)"]
 ASSUMPTIONS = [
@@ -96,17 +102,11 @@ class Server(Suite):
         out += [{"req": {"k": "str", "s": s}} for s in V.INVENTED + [V.OUTSIDE] + MALFORMED_STRINGS + [""]]
         rng = ctx.sub_rng("c04-server", budget)
         out += [{"req": {"k": "str", "s": s}} for s in mutations(rng, sup, 300 if budget == "quick" else 5000)]
-        if budget == "quick":
-            for d in all_dates():
-                if 2015 <= d.year <= 2034 or d.toordinal() % 7 == 0:
-                    out.append({"req": {"k": "str", "s": d.isoformat()}})
-            ctx.exhaustive_parts.append("server-answer: every calendar date 2015-01-01..2034-12-31, every 7th day of 1925..2124")
-        else:
-            out += [{"req": {"k": "str", "s": d.isoformat()}} for d in all_dates()]
-            ctx.exhaustive_parts.append("server-answer: every calendar date 1925-01-01..2124-12-31")
-            n = 20000 if budget == "search" else 150000
-            for _ in range(n):  # dddd-dd-dd strings that are not calendar dates as well
-                out.append({"req": {"k": "str", "s": "%04d-%02d-%02d" % (rng.randrange(10000), rng.randrange(100), rng.randrange(100))}})
+        out += [{"req": {"k": "str", "s": d.isoformat()}} for d in all_dates()]
+        ctx.exhaustive_parts.append("server-answer: every calendar date 1925-01-01..2124-12-31")
+        n = {"quick": 3000, "search": 50000}.get(budget, 500000)
+        for _ in range(n):  # dddd-dd-dd strings that need not be calendar dates
+            out.append({"req": {"k": "str", "s": "%04d-%02d-%02d" % (rng.randrange(10000), rng.randrange(100), rng.randrange(100))}})
         return out
 
     def impl_batch(self, cases):
@@ -178,16 +178,79 @@ class Server(Suite):
         return "string/malformed"
 
     def shrink_candidates(self, case):
+        # requested strings are not shrunk: the generated ones are short and a date-shaped witness says
+        # more than a one-character one; the case list is ordered so that the first witness is simple
         r = case["req"]
-        if r["k"] == "str":
-            s = r["s"]
-            if len(s) > 1:
-                yield {"req": {"k": "str", "s": "0"}}
-                for i in range(len(s)):
-                    yield {"req": {"k": "str", "s": s[:i] + s[i + 1:]}}
-        elif r["k"] == "json" and canon(r["v"]) != "0":
+        if r["k"] == "json" and canon(r["v"]) != "0":
             yield {"req": {"k": "json", "v": 0}}
 
 
+class Handshake(Suite):
+    """Real send_initialize against the real handler over an in-memory pipe, for every client list of
+    C03 x every preferred version; compared with `handshake` on the regenerated server constants."""
+
+    name = "handshake"
+
+    def cases(self, ctx, budget):
+        from .c03 import PREFS, all_lists
+
+        lists = list(all_lists(3)) + [None]
+        ctx.exhaustive_parts.append(
+            "handshake: every client list of length<=3 (with repetition) over the 6-version universe, and no list, x 9 preferred versions")
+        return [{"sup": sup, "pref": pref} for sup in lists for pref in PREFS]  # shortest lists, absent preference first
+
+    def impl_batch(self, cases):
+        return V.run_handshake(cases)
+
+    def model_line(self, case):
+        return {"m": "version", "op": "handshake", "sup": case["sup"], "pref": case["pref"]}
+
+    def compare(self, case, o, m):
+        if o.get("outcome") != m.get("outcome"):
+            return "outcome differs"
+        if o["outcome"] == "ok" and o.get("v") != m.get("v"):
+            return "agreed version differs"
+        if canon(o.get("trace")) != canon(m.get("trace")):
+            return "transcript differs"
+        if canon(o.get("session")) != canon(m.get("session")) or o.get("sessions") != 1:
+            return "session differs"
+        return None
+
+    def oracle(self, case, o):
+        ssup = V.server_supported()
+        csup = case["sup"] if case["sup"] is not None else ssup
+        if o.get("outcome") == "ok":
+            v = o.get("v")
+            if not (isinstance(v, str) and v in ssup):
+                return ("handshake-agreed-on-unsupported-version",
+                        f"client offering {csup} (preferred {case['pref']!r}) and the library server agreed on {canon(v)}, which the "
+                        f"server does not support ({ssup})", {"outcome": "mismatch, or ok with a version of both lists"})
+            if v not in csup:
+                return ("handshake-agreed-on-unoffered-version", f"client offering {csup} ended agreed on {v!r}",
+                        {"outcome": "mismatch"})
+            if o.get("sessions") and canon(o.get("session")) != canon(v):
+                return ("session-version-differs", f"handshake agreed on {v!r} but the server's session records {canon(o.get('session'))}",
+                        {"session": v})
+            return None
+        if o.get("outcome") != "mismatch":
+            return ("handshake-third-outcome", f"client offering {csup} (preferred {case['pref']!r}) against the library server ended in "
+                    f"{o.get('outcome')} {o.get('exc', '')} {o.get('server')}", {"outcome": "ok or mismatch"})
+        return None
+
+    def kind(self, case, o):
+        ssup = set(V.server_supported())
+        csup = case["sup"] if case["sup"] is not None else list(ssup)
+        common = "common" if ssup & set(csup) else "disjoint"
+        return f"handshake/{common}/{o.get('outcome')}"
+
+    def shrink_candidates(self, case):
+        sup = case["sup"]
+        if sup is not None and len(sup) > 1:
+            for i in range(len(sup)):
+                yield dict(case, sup=sup[:i] + sup[i + 1:])
+        if case["pref"] is not None:
+            yield dict(case, pref=None)
+
+
 def suites():
-    return [Server()]
+    return [Server(), Handshake()]
